@@ -144,7 +144,23 @@ static void case_QNM(ByteSource& in, CaseInfo& ci) {
     std::string expect = wrap_expected(shape, mid); Api api = pick_api(in, snsize, expect.size()); ci.label("%M"); ci.label(API_NAME[api]); ci.nontrivial = true; ci.d("M fmt=\"%s\" v=%llx", spec.c_str(), (unsigned long long)v);
     Out o = call_shape(api, expect.size() + 64, snsize, shape, spec, s, (mp_limb_t)v, &nout); judge_out("%M", api, o, expect, snsize, spec, nout, shape); }
 }
+// %Ff of integer-valued mpf numbers of many limbs held with more precision than they need: every digit of the integer is exact
+static void case_F_big(ByteSource& in, CaseInfo& ci) {
+  size_t n = in.flag() ? (size_t)in.range(1, 6) : (size_t)in.range(6, 40); Limbs v = limbs_nz(in, n); if (in.chance(60)) v.assign(n, ~0ull); bool neg = in.flag(); Int N = Int::from_limbs(v.data(), n, neg);
+  Spec s = gen_spec(in, "f", true); s.hash = false; if (s.pmode == 3) s.pmode = 0; if (s.has_prec() && s.prec > 40) s.prec = (int)in.range(0, 12); if (s.pmode == 2 && s.prec < 0) s.prec = 2;
+  int fp = s.has_prec() ? s.eff_prec() : 6; std::string digits = ref::to_string(N.abs(), 10); std::string body = digits + (fp > 0 ? "." + std::string((size_t)fp, '0') : "");
+  std::string sign = N.neg ? "-" : s.plus ? "+" : s.space ? " " : ""; size_t len = sign.size() + body.size(), w = (size_t)s.eff_width(); std::string pad = len < w ? std::string(w - len, ' ') : "", mid;
+  if (s.eff_left()) mid = sign + body + pad; else if (s.zero) mid = sign + std::string(pad.size(), '0') + body; else mid = pad + sign + body;
+  unsigned shape = in.pick({4, 2, 2}); std::string expect = wrap_expected(shape, mid), spec = s.str("F"); size_t snsize; Api api = pick_api(in, snsize, expect.size()); int nout = -1; g_alloc_err.clear();
+  mpf_t x; mpf_init2(x, 64 * n + 192); mpz_t z; mpz_init(z); mpz_from_int(z, N); mpf_set_z(x, z); mpz_clear(z);
+  ci.label("%F"); ci.label("F:integer_valued_many_limbs"); ci.label(API_NAME[api]); ci.nontrivial = true; ci.d("F(big) fmt=\"%s\" limbs=%zu w=%d p=%d ", spec.c_str(), n, s.width, s.prec); DESC(ci, "v=" + show(N, 40));
+  Out o = call_shape(api, expect.size() + 64, snsize, shape, spec, s, (mpf_srcptr)x, &nout); mpf_clear(x);
+  const char* kf = (s.zero && s.eff_left() && s.eff_width() > 0) ? "printf-zero-flag-with-left-justify" : nullptr;
+  if (kf && is_known(kf) && o.s != expect) { ci.excluded.push_back(kf); return; }
+  judge_out("%F of an integer-valued mpf", api, o, expect, snsize, spec, nout, shape);
+}
 static void case_F(ByteSource& in, CaseInfo& ci) {
+  if (in.chance(70)) { case_F_big(in, ci); return; }
   // dyadic value m/2^k whose decimal expansion is exact within the requested precision: libc prints it exactly, byte-identical output expected
   static const char cv[] = "feEgG"; Spec s = gen_spec(in, cv, false); if (s.hash) { s.hash = false; ci.label("F:hash_flag_not_asserted"); }   /* the manual does not spell out '#' for %F */
   long m = (long)in.srange(-(1 << 20), 1 << 20); if (in.chance(40)) m = 0; int k = (int)in.range(0, 10); double d = std::ldexp((double)m, -k);
